@@ -124,6 +124,8 @@ def compare_case(ctx, e, src, tsrc, outs, datas, data_seed, modes=MODES):
             if real_code != m:
                 if real_code[0] == "E" and real_code[1].startswith("nofilter"):
                     pass
+                elif X.constant_text_agrees(fold, gen, real_code):
+                    ctx.count("constant_text_by_display")      # the model cannot print this constant; same text through its display
                 else:
                     ok = False
                     ctx.model_mismatch("K-gen emitted expression (" + mode + ")", dict(case, kind="gen"), repr(m)[:600], repr(real_code)[:600], None)
